@@ -13,7 +13,12 @@
     * metadata references: the (block, offset) pair computed for an inode resolves — through the
       8 KiB chunking, continuing into following blocks — to that inode's bytes, for any sequence of
       inode sizes;
-    * the superblock codec round-trips.
+    * the superblock codec round-trips;
+    * region layout (`sizes_describe_bytes` and the four theorems after it): for any sizes of the
+      pieces, the mirror of Finalize's `location` bookkeeping puts every table start at the start
+      of its region, the regions tile [96, bytes_used), bytes_used is the end of the last write,
+      and the WriteAt calls cover [0, bytes_used) exactly once; the 8 KiB chunking of the metadata
+      streams holds the whole stream in blocks of 1..8192 bytes.
   The compressors themselves are outside Lean (parameter `Codec`); the end-to-end clause is
   evaluated on the real code by the engine (see the registration note).
 -/
@@ -21,6 +26,7 @@ import DiskfsModel.Proofs.SqfsMap
 import DiskfsModel.Proofs.SqfsFrag
 import DiskfsModel.Proofs.SqfsMeta
 import DiskfsModel.Proofs.SqfsCodec
+import DiskfsModel.Proofs.SqfsRegions
 import DiskfsModel.Generated.Sqfs
 namespace Diskfs.Sqfs.C07
 
@@ -108,5 +114,90 @@ example : fragRefs 8 [3, 0, 4, 2, 7] 0 0 = [some (0, 0), none, some (0, 3), some
 example : packFrags 8 [[1, 1, 1], [], [2, 2, 2, 2], [3, 3], [4, 4, 4, 4, 4, 4, 4]] [] [] =
     [[1, 1, 1, 2, 2, 2, 2], [3, 3], [4, 4, 4, 4, 4, 4, 4]] := by decide
 example : (inodeRefs [5000, 5000, 100] 0) = [(0, 0), (0, 5000), (1, 1808)] := by decide
+
+/-! ## region layout of Finalize -/
+
+/-- **sizes_describe_bytes.**  For ANY sizes of the pieces (data blocks, fragment blocks, metadata
+    blocks of the five tables, compressor option bytes) and with or without an export table, the
+    mirror of Finalize's bookkeeping agrees with the specification "eleven regions laid end to end
+    from byte 96": the regions tile [96, bytes_used) without gap or overlap; inode_table_start and
+    directory_table_start are the starts of their regions; fragment / export / id table start are
+    the starts of the INDEX regions of those tables (each preceded by its metadata blocks);
+    bytes_used is the end of the last region; and the WriteAt calls are exactly the regions' writes
+    end to end, followed by the superblock at byte 0. -/
+theorem sizes_describe_bytes (p : Pieces) :
+    Tiles sbSize (regions p) ∧
+    (finalize p).bytesUsed = endOf sbSize (regions p) ∧
+    (finalize p).inodeStart = startOf .inodeTbl (regions p) ∧
+    (finalize p).dirStart = startOf .dirTbl (regions p) ∧
+    (finalize p).fragStart = startOf .fragIdx (regions p) ∧
+    (finalize p).idStart = startOf .idIdx (regions p) ∧
+    (finalize p).exportStart = (if p.exportTbl.isSome then startOf .exportIdx (regions p) else 0) ∧
+    (finalize p).writes = flatWrites (regions p) ++ [(0, sbSize)] :=
+  ⟨regions_tile p, finalize_bytesUsed p, (finalize_starts p).1, (finalize_starts p).2.1, (finalize_starts p).2.2.1,
+    (finalize_starts p).2.2.2.1, (finalize_starts p).2.2.2.2, finalize_writes p⟩
+
+/-- the regions are in ascending order, pairwise disjoint, and lie inside [96, bytes_used) -/
+theorem regions_disjoint_inside (p : Pieces) :
+    (regions p).Pairwise (fun a b => a.hi ≤ b.lo) ∧
+    ∀ r ∈ regions p, sbSize ≤ r.lo ∧ r.hi ≤ (finalize p).bytesUsed := by
+  refine ⟨tiles_pairwise _ _ (regions_tile p), ?_⟩
+  rw [finalize_bytesUsed]
+  exact tiles_inside _ _ (regions_tile p)
+
+/-- the table starts are ordered and inside the image; bytes_used is the end of the id index, the
+    last thing written before the superblock -/
+theorem table_starts_ordered (p : Pieces) :
+    sbSize ≤ (finalize p).inodeStart ∧ (finalize p).inodeStart ≤ (finalize p).dirStart ∧
+    (finalize p).dirStart ≤ (finalize p).fragStart ∧
+    (finalize p).fragStart + 8 * p.fragTbl.length ≤ (finalize p).idStart ∧
+    (finalize p).idStart + 8 * p.idTbl.length = (finalize p).bytesUsed ∧
+    (∀ e, p.exportTbl = some e →
+      (finalize p).fragStart + 8 * p.fragTbl.length ≤ (finalize p).exportStart ∧
+      (finalize p).exportStart + 8 * e.length ≤ (finalize p).idStart) := finalize_order p
+
+/-- "the size fields describe exactly the bytes written": a byte offset is below bytes_used iff
+    some WriteAt of Finalize covers it — nothing beyond bytes_used is written, no hole is left —
+    and no byte is written twice -/
+theorem written_bytes_exact (p : Pieces) :
+    (∀ x, x < (finalize p).bytesUsed ↔ ∃ w ∈ (finalize p).writes, w.1 ≤ x ∧ x < w.1 + w.2) ∧
+    (finalize p).writes.Pairwise (fun a b => a.1 + a.2 ≤ b.1 ∨ b.1 + b.2 ≤ a.1) :=
+  ⟨finalize_cover p, finalize_once p⟩
+
+/-- chunking of the inode and directory tables (`writeInodes`, `writeDirectories`): the blocks hold
+    the whole stream; with items of at most 8 KiB every block holds 1..8192 bytes and all but the
+    last are full -/
+theorem meta_chunks_gt (items : List Nat) (h : ∀ s ∈ items, s ≤ metaMax) :
+    (chunkGT items 0).sum = items.sum ∧ (∀ c ∈ chunkGT items 0, 0 < c ∧ c ≤ metaMax) ∧
+    (∀ c ∈ (chunkGT items 0).dropLast, c = metaMax) :=
+  ⟨by simpa using chunkGT_sum items 0, chunkGT_bound items 0 (by simp [metaMax]) h, chunkGT_full items 0⟩
+
+/-- chunking of the fragment / export / id tables (entries of 16 / 8 / 4 bytes): exactly
+    ⌊n·e / 8192⌋ full blocks and one block with the rest, so the index has ⌈n·e / 8192⌉ entries -/
+theorem meta_chunks_ge (e n : Nat) (hd : e ∣ metaMax) :
+    chunkGE e n 0 = List.replicate (n * e / metaMax) metaMax ++ (if n * e % metaMax > 0 then [n * e % metaMax] else []) := by
+  simpa using chunkGE_exact e hd n 0 (by simp [metaMax]) (Nat.dvd_zero e)
+
+/-- pinned facts regenerated from finalize.go: Finalize calls its writers in the order of the
+    model's regions (the xattr writer, not modelled, comes last); `NoPad`, `NoFragments` and
+    `NonSparse` are not consulted by the layout code, which is why the region sequence does not
+    depend on them; block and superblock sizes -/
+theorem facts_agree_regions :
+    Generated.Sqfs.finalize_writer_order = writerOrder ++ ["writeXattrs"] ∧
+    "NoPad" ∉ Generated.Sqfs.finalize_options_consulted ∧ "NoFragments" ∉ Generated.Sqfs.finalize_options_consulted ∧
+    "NonSparse" ∉ Generated.Sqfs.finalize_options_consulted ∧ "NonExportable" ∈ Generated.Sqfs.finalize_options_consulted ∧
+    Generated.Sqfs.metadataBlockSize = metaMax ∧ Generated.Sqfs.superblockSize = sbSize := by decide
+
+/-! non-vacuity / worked example: 2 data blocks, 1 fragment block, one block per table -/
+private def ex1 : Pieces := { opt := 8, data := [4096, 100], frags := [50], inodes := [200], dirs := [60], fragTbl := [16],
+                              exportTbl := some [40], idTbl := [4] }
+example : (finalize ex1).inodeStart = 4350 ∧ (finalize ex1).dirStart = 4552 ∧ (finalize ex1).fragStart = 4632 ∧
+    (finalize ex1).exportStart = 4682 ∧ (finalize ex1).idStart = 4696 ∧ (finalize ex1).bytesUsed = 4704 := by decide
+example : (finalize { ex1 with exportTbl := none }).exportStart = 0 ∧ (finalize { ex1 with exportTbl := none }).idStart = 4646 := by decide
+example : (finalize ex1).writes = [(96, 8), (104, 4096), (4200, 100), (4300, 50), (4350, 202), (4552, 62), (4614, 18), (4632, 8),
+    (4640, 42), (4682, 8), (4690, 6), (4696, 8), (0, 96)] := by decide
+example : chunkGT [5000, 5000, 100] 0 = [8192, 1908] := by rfl
+example : chunkGE 16 513 0 = [8192, 16] ∧ chunkGE 16 512 0 = [8192] ∧ chunkGE 4 0 0 = [] :=
+  ⟨by rw [meta_chunks_ge 16 513 ⟨512, by rfl⟩]; rfl, by rw [meta_chunks_ge 16 512 ⟨512, by rfl⟩]; rfl, by rfl⟩
 
 end Diskfs.Sqfs.C07
